@@ -346,6 +346,38 @@ type scriptServer struct {
 	round map[string]int // authenticate rounds per connection are counted by the harness
 	cur   lime.Transport // transport of the connection being scripted
 	sid   string
+	runs  int
+}
+
+// decoy makes the same Server (same configuration object) serve a connection over a transport with other
+// capabilities - the in-process transport, which supports neither TLS nor compression - before the scripted
+// TCP connection: whatever a handshake leaves behind in the server must not leak into the next one.
+func (s *scriptServer) decoy() {
+	ctx, cancel := context.WithTimeout(context.Background(), 2*time.Second)
+	defer cancel()
+	inprocMu.Lock()
+	addr := nextInprocAddr()
+	inprocMu.Unlock()
+	l := lime.NewInProcessTransportListener(addr)
+	if err := l.Listen(ctx, addr); err != nil {
+		return
+	}
+	defer l.Close()
+	ct, err := lime.DialInProcess(addr, 4)
+	if err != nil {
+		return
+	}
+	st, err := l.Accept(ctx)
+	if err != nil {
+		return
+	}
+	s.l.ch <- st
+	_ = ct.Send(ctx, &lime.Session{State: lime.SessionStateNew})
+	rctx, rc := context.WithTimeout(ctx, 500*time.Millisecond)
+	_, _ = ct.Receive(rctx)
+	rc()
+	_ = ct.Close()
+	waitUntil(500*time.Millisecond, func() bool { return servingGoroutines() == 0 })
 }
 
 func (s *scriptServer) record(c SCall) {
@@ -656,6 +688,10 @@ func (c *rawClient) line(in CIn) []byte {
 
 // run plays the script against the server on a fresh connection.
 func (s *scriptServer) run(script []CIn) *SObs {
+	s.runs++
+	if s.runs%6 == 1 {
+		s.decoy()
+	}
 	cmem, smem := memconn.Pipe(0)
 	var cfg *lime.TCPConfig
 	if s.conf.Kind == "memtls" {
